@@ -96,20 +96,70 @@ Proof.
   apply andb_prop in H2. destruct H2 as [A B]. apply pm_type_eqb_eq in A. apply pm_str_eqb_eq in B. auto.
 Qed.
 
-(* an evaluation on a service, or in a frame without stale service, is the evaluation the statement means *)
-Lemma pm_view_clean sv sc o : po_type o = PmService \/ sv = None -> pm_scope_view sv sc o = pm_scope_view None sc o.
-Proof. intros [H| ->]; [|reflexivity]. destruct sc; cbn; try reflexivity. rewrite H. reflexivity. Qed.
-
-Lemma pm_eval_clean fv sv f o : po_type o = PmService \/ sv = None -> pm_eval fv sv f o = pm_eval fv None f o.
+Lemma pm_nav_eqb_eq a b : pm_nav_eqb a b = true <-> a = b.
+Proof. destruct a, b; cbn; split; intros; congruence. Qed.
+Lemma pm_scope_eqb_eq a b : pm_scope_eqb a b = true <-> a = b.
 Proof.
-  intros H. induction f; cbn; try reflexivity; try (rewrite (pm_view_clean sv sc o H); reflexivity).
+  destruct a, b; cbn; split; intros H; try congruence.
+  - apply pm_nav_eqb_eq in H. congruence.
+  - inversion H; subst. apply pm_nav_eqb_eq. reflexivity.
+Qed.
+
+(* ================================================================ the namespace of a filter frame *)
+(* evaluation reads the namespace only through pm_ns_get *)
+Lemma pm_eval_ext fv ns1 ns2 f : (forall v, pm_ns_get ns1 v = pm_ns_get ns2 v) -> pm_eval fv ns1 f = pm_eval fv ns2 f.
+Proof.
+  intros H. induction f; cbn; try reflexivity; try (rewrite (H sc); reflexivity).
   - rewrite IHf1, IHf2. reflexivity.
   - rewrite IHf1, IHf2. reflexivity.
   - rewrite IHf. reflexivity.
 Qed.
 
-Lemma pm_eval_opt_clean pf sv o : po_type o = PmService \/ sv = None -> pm_eval_opt pf sv o = pm_eval_opt pf None o.
-Proof. destruct pf; cbn; [apply pm_eval_clean|reflexivity]. Qed.
+(* the variables the binding step of EvaluateFilter Sets for a target of type t *)
+Definition pm_bound_vars (t : pm_type) : list pm_scope := PmScObj :: pm_type_var t :: pm_nav_vars t.
+Definition pm_is_bound (t : pm_type) (v : pm_scope) : bool := existsb (pm_scope_eqb v) (pm_bound_vars t).
+
+(* after binding, a bound variable holds what the CURRENT target determines - value or null -, any other
+   variable is untouched.  (This is where "every navigation field is Set, also when null" enters: pm_bind folds
+   over ALL of pm_nav_vars.) *)
+Lemma pm_bind_get ns o v :
+  pm_ns_get (pm_bind ns o) v = if pm_is_bound (po_type o) v then pm_ns_get (pm_bind [] o) v else pm_ns_get ns v.
+Proof.
+  unfold pm_bind, pm_is_bound, pm_bound_vars, pm_nav_vars, pm_checkable_navs, pm_type_var.
+  destruct (po_type o); destruct v as [| | |[]]; reflexivity.
+Qed.
+
+(* a namespace that only ever saw targets of type t *)
+Definition pm_ns_typed (t : pm_type) (ns : pm_ns) : Prop := forall v, pm_ns_get ns v <> None -> pm_is_bound t v = true.
+
+Lemma pm_ns_typed_nil t : pm_ns_typed t [].
+Proof. intros v H. cbn in H. congruence. Qed.
+
+Lemma pm_bind_typed t ns o : po_type o = t -> pm_ns_typed t ns -> pm_ns_typed t (pm_bind ns o).
+Proof.
+  intros Ht Hns v H. rewrite pm_bind_get, Ht in H. destruct (pm_is_bound t v) eqn:E; [reflexivity|]. rewrite <- E. apply Hns. assumption.
+Qed.
+
+(* C18_frame_depends_on_target_only: in a namespace used for one type only, the frame after binding a target
+   is - variable by variable - the frame obtained by binding that target into an EMPTY namespace *)
+Theorem pm_frame_depends_on_target_only ns o :
+  pm_ns_typed (po_type o) ns -> forall v, pm_ns_get (pm_bind ns o) v = pm_ns_get (pm_bind [] o) v.
+Proof.
+  intros Hns v. rewrite pm_bind_get. destruct (pm_is_bound (po_type o) v) eqn:E; [reflexivity|].
+  rewrite (pm_bind_get [] o v), E. cbn [pm_ns_get].
+  destruct (pm_ns_get ns v) eqn:G; [|reflexivity]. exfalso.
+  assert (pm_is_bound (po_type o) v = true) by (apply Hns; congruence). congruence.
+Qed.
+
+(* hence EvaluateFilter's outcome for a target does not depend on what was evaluated before in that namespace *)
+Lemma pm_evalf_clean fv pf ns o :
+  pm_ns_typed (po_type o) ns ->
+  snd (pm_evalf fv pf ns o) = snd (pm_evalf fv pf [] o) /\ pm_ns_typed (po_type o) (fst (pm_evalf fv pf ns o)).
+Proof.
+  intros Hns. unfold pm_evalf. destruct pf as [f|]; cbn [fst snd].
+  - split; [apply pm_eval_ext; apply pm_frame_depends_on_target_only; assumption|apply pm_bind_typed; auto].
+  - split; [reflexivity|assumption].
+Qed.
 
 (* ================================================================ HasPermission *)
 Definition pm_matches (req : pm_str) (e : pm_entry) : bool := pm_match (pm_lower (pe_perm e)) req.
@@ -124,11 +174,11 @@ Proof.
     + reflexivity.
 Qed.
 
-(* the combined filter is true (in frame state sv) only if the initial one is, or the filter of a matching entry is *)
-Lemma pm_hp_loop_filter_true u req sv o : forall found pf g,
-  snd (pm_hp_loop u req found pf) = Some g -> pm_eval [] sv g o = PmT ->
-  (exists g0, pf = Some g0 /\ pm_eval [] sv g0 o = PmT)
-  \/ (exists e f, In e u /\ pm_matches req e = true /\ pe_filter e = Some f /\ pm_eval [] sv f o = PmT).
+(* the combined filter is true (in namespace ns) only if the initial one is, or the filter of a matching entry is *)
+Lemma pm_hp_loop_filter_true u req ns : forall found pf g,
+  snd (pm_hp_loop u req found pf) = Some g -> pm_eval [] ns g = PmT ->
+  (exists g0, pf = Some g0 /\ pm_eval [] ns g0 = PmT)
+  \/ (exists e f, In e u /\ pm_matches req e = true /\ pe_filter e = Some f /\ pm_eval [] ns f = PmT).
 Proof.
   induction u as [|e r IH]; intros found pf g Hs Hev; cbn [pm_hp_loop] in Hs.
   - cbn in Hs. left. exists g. auto.
@@ -137,7 +187,7 @@ Proof.
       * destruct pf as [g0|].
         -- destruct (IH _ _ _ Hs Hev) as [(g1 & Hg1 & Hev1)|(e' & f' & Hin & Hm' & Hf' & Hev')].
            ++ inversion Hg1; subst. cbn [pm_eval] in Hev1.
-              destruct (pm_eval [] sv g0 o) eqn:E0; try discriminate.
+              destruct (pm_eval [] ns g0) eqn:E0; try discriminate.
               ** left. exists g0. auto.
               ** right. exists e, f. cbn. auto.
            ++ right. exists e', f'. cbn. auto.
@@ -183,10 +233,10 @@ Proof.
   unfold pm_check_permission. destruct (pm_has_permission u perm) as [found pf']. destruct found; intros H; [discriminate|reflexivity].
 Qed.
 
-(* granted + combined filter true (in frame state sv)  ==>  some matching entry whose filter, if any, is true *)
-Lemma pm_granted_allow u perm pf sv o :
-  perm <> [] -> pm_check_permission u perm = Some pf -> pm_eval_opt pf sv o = PmT ->
-  pm_spec_allow_sv u perm sv o = true.
+(* granted + combined filter true of o (evaluated on o alone)  ==>  some matching entry whose filter, if any, is true of o *)
+Lemma pm_granted_allow u perm pf o :
+  perm <> [] -> pm_check_permission u perm = Some pf -> pm_eval_opt pf o = PmT ->
+  pm_spec_allow u perm o = true.
 Proof.
   intros Hne Hc Hev. apply pm_check_some in Hc.
   destruct perm as [|c p]; [congruence|]. unfold pm_has_permission in Hc.
@@ -194,9 +244,10 @@ Proof.
   assert (fst (pm_hp_loop u req false None) = true) as Hf by (rewrite Hc; reflexivity).
   assert (snd (pm_hp_loop u req false None) = pf) as Hs by (rewrite Hc; reflexivity).
   rewrite pm_hp_loop_found in Hf. cbn [orb] in Hf.
-  unfold pm_spec_allow_sv. apply existsb_exists.
+  unfold pm_spec_allow. apply existsb_exists.
   destruct pf as [g|].
-  - cbn in Hev. destruct (pm_hp_loop_filter_true u req sv o _ _ _ Hs Hev) as [(g0 & Hg0 & _)|(e & f & Hin & Hm & Hfe & He)].
+  - unfold pm_eval_opt, pm_evalf in Hev. cbn [snd] in Hev.
+    destruct (pm_hp_loop_filter_true u req (pm_bind [] o) _ _ _ Hs Hev) as [(g0 & Hg0 & _)|(e & f & Hin & Hm & Hfe & He)].
     + discriminate.
     + exists e. split; [assumption|]. unfold pm_entry_allows. fold req. unfold pm_matches in Hm. rewrite Hm, Hfe, He. reflexivity.
   - apply pm_hp_loop_filter_none in Hs. destruct Hs as [_ Hall].
@@ -207,55 +258,42 @@ Qed.
 (* ================================================================ GetFilterTargets: what every returned object satisfies *)
 (* o is an inventory object for which the combined permission filter, evaluated on o alone, is true *)
 Definition pm_ret_clean (pf : option pm_filter) (inv : list pm_obj) (o : pm_obj) : Prop :=
-  In o inv /\ pm_eval_opt pf None o = PmT.
+  In o inv /\ pm_eval_opt pf o = PmT.
 
-Lemma pm_last_service_none l : (forall o, In o l -> po_type o = PmHost) -> pm_last_service l = None.
+(* one EvaluateFilter call of the permission filter in a namespace that only saw targets of o's type *)
+Lemma pm_evalf_perm pf ns o ns' r :
+  pm_ns_typed (po_type o) ns -> pm_evalf [] pf ns o = (ns', r) ->
+  r = pm_eval_opt pf o /\ pm_ns_typed (po_type o) ns'.
 Proof.
-  induction l as [|o r IH]; intros H; cbn; [reflexivity|].
-  rewrite IH by (intros; apply H; right; assumption).
-  unfold pm_is_service. rewrite (H o) by (left; reflexivity). reflexivity.
-Qed.
-
-Lemma pm_frame_sv_none l : (forall o, In o l -> po_type o = PmHost) -> pm_frame_sv l = None.
-Proof. unfold pm_frame_sv. apply pm_last_service_none. Qed.
-Lemma pm_frame_sv_nil : pm_frame_sv [] = None.
-Proof. reflexivity. Qed.
-
-(* the namespace of one by-name type iteration only holds targets of that type: every evaluation in it is the
-   evaluation on the object alone *)
-Lemma pm_frame_clean pf t fr o :
-  (forall x, In x fr -> po_type x = t) -> po_type o = t ->
-  pm_eval_opt pf (pm_frame_sv fr) o = pm_eval_opt pf None o.
-Proof.
-  intros Hfr Ho. apply pm_eval_opt_clean. destruct t; [right|left; assumption].
-  apply pm_frame_sv_none. assumption.
+  intros Hns E. destruct (pm_evalf_clean [] pf ns o Hns) as [A B]. rewrite E in A, B. cbn [fst snd] in A, B.
+  split; [exact A|exact B].
 Qed.
 
 Section Names.
   Variables (pf : option pm_filter) (inv : list pm_obj).
 
-  Lemma pm_name_one_ok t n fr o :
-    (forall x, In x fr -> po_type x = t) ->
-    pm_name_one pf inv t n fr = inr o ->
-    pm_ret_clean pf inv o /\ po_type o = t /\ po_name o = n /\ pm_lookup inv t n = Some o.
+  Lemma pm_name_one_ok t n ns o ns' :
+    pm_ns_typed t ns ->
+    pm_name_one pf inv t n ns = inr (o, ns') ->
+    pm_ret_clean pf inv o /\ po_type o = t /\ po_name o = n /\ pm_lookup inv t n = Some o /\ pm_ns_typed t ns'.
   Proof.
-    intros Hfr. unfold pm_name_one. destruct (pm_lookup inv t n) as [o'|] eqn:L; [|discriminate].
-    destruct (pm_eval_opt pf (pm_frame_sv fr) o') eqn:E; try discriminate.
-    intros H. inversion H; subst. destruct (pm_lookup_some _ _ _ _ L) as (A & B & C).
-    rewrite (pm_frame_clean pf t fr o Hfr B) in E. repeat split; auto.
+    intros Hns. unfold pm_name_one. destruct (pm_lookup inv t n) as [o'|] eqn:L; [|discriminate].
+    destruct (pm_lookup_some _ _ _ _ L) as (A & B & C).
+    destruct (pm_evalf [] pf ns o') as [ns1 r] eqn:E.
+    rewrite <- B in Hns. destruct (pm_evalf_perm pf ns o' ns1 r Hns E) as [Hr Ht]. rewrite B in Ht.
+    destruct r; try discriminate. intros H. inversion H; subst. repeat split; auto.
   Qed.
 
   Lemma pm_name_list_ok t ns : forall acc fr res,
-    (forall x, In x fr -> po_type x = t) -> (forall x, In x acc -> pm_ret_clean pf inv x) ->
+    pm_ns_typed t fr -> (forall x, In x acc -> pm_ret_clean pf inv x) ->
     pm_name_list pf inv t ns acc fr = inr res -> forall x, In x res -> pm_ret_clean pf inv x.
   Proof.
     induction ns as [|n r IH]; intros acc fr res Hfr Hacc H; cbn in H.
     - inversion H; subst. assumption.
-    - destruct (pm_name_one pf inv t n fr) as [e|o] eqn:E; [discriminate|].
-      destruct (pm_name_one_ok t n fr o Hfr E) as (A & B & _).
-      eapply IH; [| |exact H].
-      + intros x Hx. apply in_app_or in Hx. destruct Hx as [Hx|[<-|[]]]; auto.
-      + intros x Hx. apply in_app_or in Hx. destruct Hx as [Hx|[<-|[]]]; auto.
+    - destruct (pm_name_one pf inv t n fr) as [e|[o fr']] eqn:E; [discriminate|].
+      destruct (pm_name_one_ok t n fr o fr' Hfr E) as (A & _ & _ & _ & F).
+      eapply IH; [exact F| |exact H].
+      intros x Hx. apply in_app_or in Hx. destruct Hx as [Hx|[<-|[]]]; auto.
   Qed.
 
   Lemma pm_names_type_ok q t acc res :
@@ -264,15 +302,15 @@ Section Names.
   Proof.
     intros Hacc H. unfold pm_names_type in H.
     destruct (pm_q_single q t) as [n|].
-    - destruct (pm_name_one pf inv t n []) as [e|o] eqn:E; [discriminate|].
-      destruct (pm_name_one_ok t n [] o (fun x (Hx : In x []) => match Hx with end) E) as (A & B & _).
+    - destruct (pm_name_one pf inv t n []) as [e|[o fr]] eqn:E; [discriminate|].
+      destruct (pm_name_one_ok t n [] o fr (pm_ns_typed_nil t) E) as (A & _ & _ & _ & F).
       assert (forall x, In x (acc ++ [o]) -> pm_ret_clean pf inv x) as Hacc'.
       { intros x Hx. apply in_app_or in Hx. destruct Hx as [Hx|[<-|[]]]; auto. }
       destruct (pm_q_plural q t) as [ns|].
-      + eapply pm_name_list_ok; [|exact Hacc'|exact H]. intros x [<-|[]]. assumption.
+      + eapply pm_name_list_ok; [exact F|exact Hacc'|exact H].
       + inversion H; subst. assumption.
     - destruct (pm_q_plural q t) as [ns|].
-      + eapply pm_name_list_ok; [|exact Hacc|exact H]. intros x [].
+      + eapply pm_name_list_ok; [apply pm_ns_typed_nil|exact Hacc|exact H].
       + inversion H; subst. assumption.
   Qed.
 
@@ -287,67 +325,77 @@ Section Names.
   Qed.
 End Names.
 
-Lemma pm_fast_collect_ret pf sv inv t ns : forall l,
-  pm_fast_collect pf sv inv t ns = inr l -> forall x, In x l -> In x inv /\ po_type x = t /\ pm_eval_opt pf sv x = PmT.
+Lemma pm_fast_collect_ret pf inv t : forall names ns l,
+  pm_ns_typed t ns ->
+  pm_fast_collect pf ns inv t names = inr l -> forall x, In x l -> In x inv /\ po_type x = t /\ pm_eval_opt pf x = PmT.
 Proof.
-  induction ns as [|n r IH]; intros l H; cbn in H.
+  induction names as [|n r IH]; intros ns l Hns H; cbn in H.
   - inversion H; subst. intros x [].
-  - destruct (pm_lookup inv t n) as [o|] eqn:L; [|apply IH; assumption].
-    destruct (pm_eval_opt pf sv o) eqn:E; try discriminate; [|apply IH; assumption].
-    destruct (pm_fast_collect pf sv inv t r) as [e|l'] eqn:R; [discriminate|].
-    inversion H; subst. intros x [<-|Hx]; [|apply (IH l' eq_refl); assumption].
-    apply pm_lookup_some in L. destruct L as (A & B & C). auto.
+  - destruct (pm_lookup inv t n) as [o|] eqn:L; [|eapply IH; eassumption].
+    destruct (pm_lookup_some _ _ _ _ L) as (A & B & C).
+    destruct (pm_evalf [] pf ns o) as [ns1 r0] eqn:E.
+    rewrite <- B in Hns. destruct (pm_evalf_perm pf ns o ns1 r0 Hns E) as [Hr Ht]. rewrite B in Ht.
+    destruct r0; try discriminate.
+    + destruct (pm_fast_collect pf ns1 inv t r) as [e|l'] eqn:R; [discriminate|].
+      inversion H; subst. intros x [<-|Hx]; [auto|eapply IH; eassumption].
+    + eapply IH; eassumption.
 Qed.
 
-Lemma pm_scan_ret pf sv uf fv t : forall inv l,
-  pm_scan pf sv uf fv t inv = inr l ->
-  forall x, In x l -> In x inv /\ po_type x = t /\ pm_eval_opt pf sv x = PmT
-                      /\ match uf with None => True | Some f => pm_eval fv None f x = PmT end.
+Lemma pm_scan_ret pf uf fv t : forall inv pns uns l,
+  pm_ns_typed t pns -> pm_ns_typed t uns ->
+  pm_scan pf pns uf fv uns t inv = inr l ->
+  forall x, In x l -> In x inv /\ po_type x = t /\ pm_eval_opt pf x = PmT /\ snd (pm_evalf fv uf [] x) = PmT.
 Proof.
-  induction inv as [|o r IH]; intros l H; cbn in H.
+  induction inv as [|o r IH]; intros pns uns l Hp Hu H; cbn in H.
   - inversion H; subst. intros x [].
   - destruct (pm_type_eqb (po_type o) t) eqn:T.
-    + destruct (pm_eval_opt pf sv o) eqn:E; try discriminate.
-      * destruct (match uf with None => PmT | Some f => pm_eval fv None f o end) eqn:U; try discriminate.
-        -- destruct (pm_scan pf sv uf fv t r) as [e|l'] eqn:R; [discriminate|].
+    + apply pm_type_eqb_eq in T.
+      destruct (pm_evalf [] pf pns o) as [pns1 r1] eqn:E1.
+      rewrite <- T in Hp. destruct (pm_evalf_perm pf pns o pns1 r1 Hp E1) as [Hr1 Hp1]. rewrite T in Hp1.
+      destruct r1; try discriminate.
+      * destruct (pm_evalf fv uf uns o) as [uns1 r2] eqn:E2.
+        rewrite <- T in Hu. destruct (pm_evalf_clean fv uf uns o Hu) as [Hr2 Hu1]. rewrite E2 in Hr2, Hu1. cbn [fst snd] in Hr2, Hu1.
+        rewrite T in Hu1.
+        destruct r2; try discriminate.
+        -- destruct (pm_scan pf pns1 uf fv uns1 t r) as [e|l'] eqn:R; [discriminate|].
            inversion H; subst. intros x [<-|Hx].
-           ++ apply pm_type_eqb_eq in T. repeat split; auto. left; reflexivity. destruct uf; auto.
-           ++ destruct (IH _ eq_refl x Hx) as (A & B). split; [right; assumption|assumption].
-        -- intros x Hx. destruct (IH _ H x Hx) as (A & B). split; [right; assumption|assumption].
-      * intros x Hx. destruct (IH _ H x Hx) as (A & B). split; [right; assumption|assumption].
-    + intros x Hx. destruct (IH _ H x Hx) as (A & B). split; [right; assumption|assumption].
+           ++ repeat split; auto. left; reflexivity.
+           ++ destruct (IH _ _ _ Hp1 Hu1 R x Hx) as (A & B). split; [right; assumption|assumption].
+        -- intros x Hx. destruct (IH _ _ _ Hp1 Hu1 H x Hx) as (A & B). split; [right; assumption|assumption].
+      * intros x Hx. destruct (IH _ _ _ Hp1 Hu H x Hx) as (A & B). split; [right; assumption|assumption].
+    + intros x Hx. destruct (IH _ _ _ Hp Hu H x Hx) as (A & B). split; [right; assumption|assumption].
 Qed.
 
-Lemma pm_by_filter_ret fast pf sv inv t uf fv l :
-  pm_by_filter fast pf sv inv t uf fv = inr l ->
-  forall x, In x l -> In x inv /\ po_type x = t /\ pm_eval_opt pf sv x = PmT.
+Lemma pm_by_filter_ret fast pf inv t uf fv l :
+  pm_by_filter fast pf inv t uf fv = inr l ->
+  forall x, In x l -> In x inv /\ po_type x = t /\ pm_eval_opt pf x = PmT.
 Proof.
   unfold pm_by_filter. intros H x Hx. destruct uf as [f|].
   - destruct (if fast && negb (pm_shadowed fv) then pm_targets t f fv else None) as [ns|].
-    + eapply pm_fast_collect_ret; eassumption.
-    + destruct (pm_scan_ret _ _ _ _ _ _ _ H x Hx) as (A & B & C & _). auto.
-  - destruct (pm_scan_ret _ _ _ _ _ _ _ H x Hx) as (A & B & C & _). auto.
+    + eapply pm_fast_collect_ret; [apply pm_ns_typed_nil|eassumption|assumption].
+    + destruct (pm_scan_ret _ _ _ _ _ _ _ _ (pm_ns_typed_nil t) (pm_ns_typed_nil t) H x Hx) as (A & B & C & _). auto.
+  - destruct (pm_scan_ret _ _ _ _ _ _ _ _ (pm_ns_typed_nil t) (pm_ns_typed_nil t) H x Hx) as (A & B & C & _). auto.
 Qed.
 
 (* decomposition of a successful call *)
 Lemma pm_filter_targets_ok fast u perm tys q inv objs c :
   pm_filter_targets fast u perm tys q inv = (c, PmOk objs) ->
   exists pf res, pm_check_permission u perm = Some pf /\ pm_by_names pf inv q tys [] = inr res /\
-    (objs = res \/ exists t l, pm_by_filter fast pf None inv t (pq_filter q) (pq_fvars q) = inr l
+    (objs = res \/ exists t l, pm_by_filter fast pf inv t (pq_filter q) (pq_fvars q) = inr l
                                /\ In t tys /\ objs = res ++ l).
 Proof.
-  unfold pm_filter_targets. rewrite pm_frame_sv_nil. destruct (pm_check_permission u perm) as [pf|]; [|discriminate].
+  unfold pm_filter_targets. destruct (pm_check_permission u perm) as [pf|]; [|discriminate].
   destruct (pm_by_names pf inv q tys []) as [e|res] eqn:N; [discriminate|].
   destruct (pm_is_some (pq_filter q) || pm_is_nil res).
   - destruct (pq_type q) as [qt|]; [|discriminate].
     destruct qt; try discriminate; cbn [pm_qtype_in].
     + destruct (existsb (pm_type_eqb PmHost) tys) eqn:E; [|discriminate].
-      destruct (pm_by_filter fast pf None inv PmHost (pq_filter q) (pq_fvars q)) as [e|l] eqn:BF; [discriminate|].
+      destruct (pm_by_filter fast pf inv PmHost (pq_filter q) (pq_fvars q)) as [e|l] eqn:BF; [discriminate|].
       intros H. inversion H; subst. exists pf, res. split; [reflexivity|]. split; [exact N|]. right.
       exists PmHost, l. split; [assumption|]. split; [|reflexivity].
       apply existsb_exists in E. destruct E as (x & Hx & Hex). apply pm_type_eqb_eq in Hex. subst. assumption.
     + destruct (existsb (pm_type_eqb PmService) tys) eqn:E; [|discriminate].
-      destruct (pm_by_filter fast pf None inv PmService (pq_filter q) (pq_fvars q)) as [e|l] eqn:BF; [discriminate|].
+      destruct (pm_by_filter fast pf inv PmService (pq_filter q) (pq_fvars q)) as [e|l] eqn:BF; [discriminate|].
       intros H. inversion H; subst. exists pf, res. split; [reflexivity|]. split; [exact N|]. right.
       exists PmService, l. split; [assumption|]. split; [|reflexivity].
       apply existsb_exists in E. destruct E as (x & Hx & Hex). apply pm_type_eqb_eq in Hex. subst. assumption.
@@ -365,7 +413,7 @@ Proof.
   pose proof (pm_by_names_ok pf inv q tys [] res (fun x (Hx : In x []) => match Hx with end) Hn) as Hres.
   destruct Hobjs as [->|(t & l & Hbf & Ht & ->)]; [auto|].
   apply in_app_or in Ho. destruct Ho as [Ho|Ho]; [auto|].
-  destruct (pm_by_filter_ret _ _ _ _ _ _ _ _ Hbf o Ho) as (A & B & C). split; assumption.
+  destruct (pm_by_filter_ret _ _ _ _ _ _ _ Hbf o Ho) as (A & B & C). split; assumption.
 Qed.
 
 (* ================================================================ reject first *)
@@ -388,48 +436,44 @@ Qed.
 Definition pm_names (q : pm_query) (t : pm_type) (n : pm_str) : Prop :=
   pm_q_single q t = Some n \/ exists ns, pm_q_plural q t = Some ns /\ In n ns.
 
-Lemma pm_name_one_denied pf inv t n o fr :
-  (forall x, In x fr -> po_type x = t) -> pm_lookup inv t n = Some o -> pm_eval_opt pf None o <> PmT ->
-  exists e, pm_name_one pf inv t n fr = inl e.
+Lemma pm_name_one_denied pf inv t n o ns :
+  pm_ns_typed t ns -> pm_lookup inv t n = Some o -> pm_eval_opt pf o <> PmT ->
+  exists e, pm_name_one pf inv t n ns = inl e.
 Proof.
-  intros Hfr L Hno. unfold pm_name_one. rewrite L.
-  rewrite (pm_frame_clean pf t fr o Hfr) by (apply pm_lookup_some in L; tauto).
-  destruct (pm_eval_opt pf None o); eauto. congruence.
+  intros Hns L Hno. unfold pm_name_one. rewrite L.
+  destruct (pm_lookup_some _ _ _ _ L) as (_ & B & _).
+  destruct (pm_evalf [] pf ns o) as [ns1 r] eqn:E. rewrite <- B in Hns.
+  destruct (pm_evalf_perm pf ns o ns1 r Hns E) as [Hr _]. destruct r; eauto. congruence.
 Qed.
 
 Lemma pm_name_list_denied pf inv t n o : forall ns acc fr,
-  (forall x, In x fr -> po_type x = t) ->
-  In n ns -> pm_lookup inv t n = Some o -> pm_eval_opt pf None o <> PmT ->
+  pm_ns_typed t fr ->
+  In n ns -> pm_lookup inv t n = Some o -> pm_eval_opt pf o <> PmT ->
   exists e, pm_name_list pf inv t ns acc fr = inl e.
 Proof.
   induction ns as [|m r IH]; intros acc fr Hfr Hin L Hno; [destruct Hin|]. cbn.
-  destruct (pm_name_one pf inv t m fr) as [e|o'] eqn:E; [eauto|].
+  destruct (pm_name_one pf inv t m fr) as [e|[o' fr']] eqn:E; [eauto|].
   destruct Hin as [->|Hin].
   - destruct (pm_name_one_denied pf inv t n o fr Hfr L Hno) as (e & He). congruence.
-  - apply IH; auto. intros x Hx. apply in_app_or in Hx. destruct Hx as [Hx|[<-|[]]]; [auto|].
-    unfold pm_name_one in E. destruct (pm_lookup inv t m) as [o2|] eqn:L2; [|discriminate].
-    destruct (pm_eval_opt pf (pm_frame_sv fr) o2); try discriminate. inversion E; subst.
-    apply pm_lookup_some in L2. tauto.
+  - destruct (pm_name_one_ok pf inv t m fr o' fr' Hfr E) as (_ & _ & _ & _ & F). apply IH; auto.
 Qed.
 
 Lemma pm_names_type_denied pf inv q t n o acc :
-  pm_names q t n -> pm_lookup inv t n = Some o -> pm_eval_opt pf None o <> PmT ->
+  pm_names q t n -> pm_lookup inv t n = Some o -> pm_eval_opt pf o <> PmT ->
   exists e, pm_names_type pf inv q t acc = inl e.
 Proof.
   intros Hn L Hno. unfold pm_names_type.
   destruct Hn as [Hs|(ns & Hp & Hin)].
-  - rewrite Hs. destruct (pm_name_one_denied pf inv t n o [] (fun x (Hx : In x []) => match Hx with end) L Hno) as (e & ->). eauto.
+  - rewrite Hs. destruct (pm_name_one_denied pf inv t n o [] (pm_ns_typed_nil t) L Hno) as (e & ->). eauto.
   - rewrite Hp. destruct (pm_q_single q t) as [n0|].
-    + destruct (pm_name_one pf inv t n0 []) as [e|o0] eqn:E; [eauto|].
-      eapply pm_name_list_denied; try eassumption. intros x [<-|[]].
-      unfold pm_name_one in E. destruct (pm_lookup inv t n0) as [o2|] eqn:L2; [|discriminate].
-      destruct (pm_eval_opt pf (pm_frame_sv []) o2); try discriminate. inversion E; subst.
-      apply pm_lookup_some in L2. tauto.
-    + eapply pm_name_list_denied; try eassumption. intros x [].
+    + destruct (pm_name_one pf inv t n0 []) as [e|[o0 fr0]] eqn:E; [eauto|].
+      destruct (pm_name_one_ok pf inv t n0 [] o0 fr0 (pm_ns_typed_nil t) E) as (_ & _ & _ & _ & F).
+      eapply pm_name_list_denied; eassumption.
+    + eapply pm_name_list_denied; try eassumption. apply pm_ns_typed_nil.
 Qed.
 
 Lemma pm_by_names_denied pf inv q t n o : forall tys acc,
-  In t tys -> pm_names q t n -> pm_lookup inv t n = Some o -> pm_eval_opt pf None o <> PmT ->
+  In t tys -> pm_names q t n -> pm_lookup inv t n = Some o -> pm_eval_opt pf o <> PmT ->
   exists e, pm_by_names pf inv q tys acc = inl e.
 Proof.
   induction tys as [|t' r IH]; intros acc Hin Hn L Hno; [destruct Hin|]. cbn.
@@ -441,7 +485,7 @@ Qed.
 (* an object addressed by name for which the combined filter (on the object alone) is not true: error *)
 Theorem pm_by_name_denied fast u perm tys q inv t n o pf :
   In t tys -> pm_names q t n -> pm_lookup inv t n = Some o ->
-  pm_check_permission u perm = Some pf -> pm_eval_opt pf None o <> PmT ->
+  pm_check_permission u perm = Some pf -> pm_eval_opt pf o <> PmT ->
   exists c e, pm_filter_targets fast u perm tys q inv = (c, PmErr e).
 Proof.
   intros Hin Hn L Hc Hno. unfold pm_filter_targets. rewrite Hc.
@@ -465,6 +509,9 @@ Definition pm_q_by_list (t : pm_type) (n : pm_str) : pm_query :=
 Definition pm_q_by_type (t : pm_type) (uf : option pm_filter) (fv : list (pm_str * pm_str)) : pm_query :=
   {| pq_host := None; pq_service := None; pq_hosts := None; pq_services := None; pq_type := Some (pm_qtype_of t); pq_filter := uf; pq_fvars := fv |}.
 
+(* the user's filter on the object alone *)
+Definition pm_ueval (fv : list (pm_str * pm_str)) (uf : option pm_filter) (o : pm_obj) : pm_tri := snd (pm_evalf fv uf [] o).
+
 Section Paths.
   Variables (u : list pm_entry) (perm : pm_str) (inv : list pm_obj) (o : pm_obj) (pf : option pm_filter).
   Hypothesis Hperm : pm_check_permission u perm = Some pf.
@@ -472,89 +519,105 @@ Section Paths.
 
   Lemma pm_path_by_name fast :
     snd (pm_filter_targets fast u perm [po_type o] (pm_q_by_name (po_type o) (po_name o)) inv) = PmOk [o]
-    <-> pm_eval_opt pf None o = PmT.
+    <-> pm_eval_opt pf o = PmT.
   Proof.
-    unfold pm_filter_targets. rewrite Hperm. unfold pm_q_by_name.
+    unfold pm_filter_targets. rewrite Hperm. unfold pm_q_by_name, pm_eval_opt.
     destruct (po_type o) eqn:T; cbn [pm_by_names]; unfold pm_names_type, pm_name_one, pm_q_single, pm_q_plural;
-      cbn [pq_host pq_service pq_hosts pq_services pm_name_list]; rewrite ?pm_frame_sv_nil; rewrite Hlook;
-      destruct (pm_eval_opt pf None o); cbn; split; intros H; congruence.
+      cbn [pq_host pq_service pq_hosts pq_services pm_name_list]; rewrite Hlook;
+      destruct (pm_evalf [] pf [] o) as [ns r]; destruct r; cbn; split; intros H; congruence.
   Qed.
 
   Lemma pm_path_by_list fast :
     snd (pm_filter_targets fast u perm [po_type o] (pm_q_by_list (po_type o) (po_name o)) inv) = PmOk [o]
-    <-> pm_eval_opt pf None o = PmT.
+    <-> pm_eval_opt pf o = PmT.
   Proof.
-    unfold pm_filter_targets. rewrite Hperm. unfold pm_q_by_list.
-    destruct (po_type o) eqn:T; cbn [pm_by_names]; unfold pm_names_type, pm_name_one, pm_q_single, pm_q_plural;
-      cbn [pq_host pq_service pq_hosts pq_services pm_name_list]; unfold pm_name_one; rewrite ?pm_frame_sv_nil; rewrite Hlook;
-      destruct (pm_eval_opt pf None o); cbn; split; intros H; congruence.
+    unfold pm_filter_targets. rewrite Hperm. unfold pm_q_by_list, pm_eval_opt.
+    destruct (po_type o) eqn:T; cbn [pm_by_names]; unfold pm_names_type, pm_q_single, pm_q_plural;
+      cbn [pq_host pq_service pq_hosts pq_services pm_name_list]; unfold pm_name_one; rewrite Hlook;
+      destruct (pm_evalf [] pf [] o) as [ns r]; destruct r; cbn; split; intros H; congruence.
   Qed.
 
-  Lemma pm_scan_complete sv uf fv : forall inv0 l,
-    pm_scan pf sv uf fv (po_type o) inv0 = inr l -> In o inv0 -> pm_eval_opt pf sv o = PmT ->
-    match uf with None => True | Some f => pm_eval fv None f o = PmT end -> In o l.
+  Lemma pm_scan_complete uf fv : forall inv0 pns uns l,
+    pm_ns_typed (po_type o) pns -> pm_ns_typed (po_type o) uns ->
+    pm_scan pf pns uf fv uns (po_type o) inv0 = inr l -> In o inv0 -> pm_eval_opt pf o = PmT ->
+    pm_ueval fv uf o = PmT -> In o l.
   Proof.
-    induction inv0 as [|x r IH]; intros l H Hin Hev Hu; [destruct Hin|]. cbn in H.
-    destruct Hin as [->|Hin].
-    - rewrite (proj2 (pm_type_eqb_eq _ _) eq_refl) in H. rewrite Hev in H.
-      destruct uf as [f|]; [rewrite Hu in H|];
-        (destruct (pm_scan pf sv _ fv (po_type o) r); [discriminate|inversion H; left; reflexivity]).
-    - destruct (pm_type_eqb (po_type x) (po_type o)); [|eauto].
-      destruct (pm_eval_opt pf sv x); try discriminate; [|eauto].
-      destruct (match uf with None => PmT | Some f => pm_eval fv None f x end); try discriminate; [|eauto].
-      destruct (pm_scan pf sv uf fv (po_type o) r) eqn:R; [discriminate|]. inversion H; subst. right. eauto.
+    induction inv0 as [|x r IH]; intros pns uns l Hp Hu H Hin Hev Huv; [destruct Hin|]. cbn in H.
+    destruct (pm_type_eqb (po_type x) (po_type o)) eqn:T.
+    - apply pm_type_eqb_eq in T.
+      destruct (pm_evalf [] pf pns x) as [pns1 r1] eqn:E1.
+      rewrite <- T in Hp. destruct (pm_evalf_perm pf pns x pns1 r1 Hp E1) as [Hr1 Hp1]. rewrite T in Hp1.
+      destruct (pm_evalf fv uf uns x) as [uns1 r2] eqn:E2.
+      rewrite <- T in Hu. destruct (pm_evalf_clean fv uf uns x Hu) as [Hr2 Hu1]. rewrite E2 in Hr2, Hu1. cbn [fst snd] in Hr2, Hu1.
+      rewrite T in Hu1, Hu.
+      destruct Hin as [->|Hin].
+      + unfold pm_ueval in Huv. rewrite Hev in Hr1. rewrite Huv in Hr2. subst r1 r2.
+        destruct (pm_scan pf pns1 uf fv uns1 (po_type o) r); [discriminate|]. inversion H. left. reflexivity.
+      + destruct r1; try discriminate.
+        * destruct r2; try discriminate.
+          -- destruct (pm_scan pf pns1 uf fv uns1 (po_type o) r) as [e0|l0] eqn:R; [discriminate|]. inversion H; subst. right.
+             exact (IH pns1 uns1 l0 Hp1 Hu1 R Hin Hev Huv).
+          -- exact (IH pns1 uns1 l Hp1 Hu1 H Hin Hev Huv).
+        * exact (IH pns1 uns l Hp1 Hu H Hin Hev Huv).
+    - destruct Hin as [->|Hin]; [rewrite (proj2 (pm_type_eqb_eq _ _) eq_refl) in T; discriminate|].
+      exact (IH pns uns l Hp Hu H Hin Hev Huv).
   Qed.
 
   Lemma pm_filter_targets_type_only fast uf fv :
     snd (pm_filter_targets fast u perm [po_type o] (pm_q_by_type (po_type o) uf fv) inv) =
-    match pm_by_filter fast pf None inv (po_type o) uf fv with inl e => PmErr e | inr l => PmOk l end.
+    match pm_by_filter fast pf inv (po_type o) uf fv with inl e => PmErr e | inr l => PmOk l end.
   Proof.
     unfold pm_filter_targets. rewrite Hperm. unfold pm_q_by_type.
     cbn [pm_by_names]. unfold pm_names_type, pm_q_single, pm_q_plural.
     destruct (po_type o); cbn [pq_host pq_service pq_hosts pq_services pq_type pq_filter pq_fvars pm_is_nil pm_qtype_of];
-      rewrite orb_true_r; cbn [pm_qtype_in existsb pm_type_eqb orb snd app]; rewrite pm_frame_sv_nil; reflexivity.
+      rewrite orb_true_r; cbn [pm_qtype_in existsb pm_type_eqb orb snd app]; reflexivity.
   Qed.
 
   (* by type (no user filter) and by type + user filter on the slow path *)
   Lemma pm_path_by_type uf fv objs :
     snd (pm_filter_targets false u perm [po_type o] (pm_q_by_type (po_type o) uf fv) inv) = PmOk objs ->
-    (In o objs <-> pm_eval_opt pf None o = PmT /\ match uf with None => True | Some f => pm_eval fv None f o = PmT end).
+    (In o objs <-> pm_eval_opt pf o = PmT /\ pm_ueval fv uf o = PmT).
   Proof.
     rewrite pm_filter_targets_type_only. unfold pm_by_filter.
     assert (In o inv) as Hin by (apply pm_lookup_some in Hlook; tauto).
-    assert (forall l, pm_scan pf None uf fv (po_type o) inv = inr l ->
-              (In o l <-> pm_eval_opt pf None o = PmT /\ match uf with None => True | Some f => pm_eval fv None f o = PmT end)) as G.
+    assert (forall l, pm_scan pf [] uf fv [] (po_type o) inv = inr l ->
+              (In o l <-> pm_eval_opt pf o = PmT /\ pm_ueval fv uf o = PmT)) as G.
     { intros l S. split.
-      - intros Ho. destruct (pm_scan_ret _ _ _ _ _ _ _ S o Ho) as (_ & _ & A & B). auto.
-      - intros [A B]. eapply pm_scan_complete; eauto. }
-    destruct uf as [f|]; cbn [negb]; (destruct (pm_scan pf None _ fv (po_type o) inv) as [e|l] eqn:S; [discriminate|]);
+      - intros Ho. destruct (pm_scan_ret _ _ _ _ _ _ _ _ (pm_ns_typed_nil _) (pm_ns_typed_nil _) S o Ho) as (_ & _ & A & B). auto.
+      - intros [A B]. eapply pm_scan_complete; eauto; apply pm_ns_typed_nil. }
+    destruct uf as [f|]; cbn [negb andb]; (destruct (pm_scan pf [] _ fv [] (po_type o) inv) as [e|l] eqn:S; [discriminate|]);
       intros H; inversion H; subst; apply G; reflexivity.
   Qed.
 
-  Lemma pm_fast_collect_complete sv : forall ns l,
-    pm_fast_collect pf sv inv (po_type o) ns = inr l -> In (po_name o) ns -> pm_eval_opt pf sv o = PmT -> In o l.
+  Lemma pm_fast_collect_complete : forall names ns l,
+    pm_ns_typed (po_type o) ns ->
+    pm_fast_collect pf ns inv (po_type o) names = inr l -> In (po_name o) names -> pm_eval_opt pf o = PmT -> In o l.
   Proof.
-    induction ns as [|n r IH]; intros l H Hin Hev; [destruct Hin|]. cbn in H.
+    induction names as [|n r IH]; intros ns l Hns H Hin Hev; [destruct Hin|]. cbn in H.
     destruct Hin as [->|Hin].
-    - rewrite Hlook, Hev in H. destruct (pm_fast_collect pf sv inv (po_type o) r); [discriminate|].
-      inversion H. left. reflexivity.
-    - destruct (pm_lookup inv (po_type o) n) as [x|]; [|eauto].
-      destruct (pm_eval_opt pf sv x); try discriminate; [|eauto].
-      destruct (pm_fast_collect pf sv inv (po_type o) r) eqn:R; [discriminate|]. inversion H; subst. right. eauto.
+    - rewrite Hlook in H. destruct (pm_evalf [] pf ns o) as [ns1 r1] eqn:E.
+      destruct (pm_evalf_perm pf ns o ns1 r1 Hns E) as [Hr _]. rewrite Hev in Hr. subst r1.
+      destruct (pm_fast_collect pf ns1 inv (po_type o) r); [discriminate|]. inversion H. left. reflexivity.
+    - destruct (pm_lookup inv (po_type o) n) as [x|] eqn:L; [|eauto].
+      destruct (pm_lookup_some _ _ _ _ L) as (_ & B & _).
+      destruct (pm_evalf [] pf ns x) as [ns1 r1] eqn:E.
+      rewrite <- B in Hns. destruct (pm_evalf_perm pf ns x ns1 r1 Hns E) as [_ Ht]. rewrite B in Ht.
+      destruct r1; try discriminate; [|eauto].
+      destruct (pm_fast_collect pf ns1 inv (po_type o) r) eqn:R; [discriminate|]. inversion H; subst. right. eauto.
   Qed.
 
   (* the fast path: host.name == "<name>" *)
   Lemma pm_path_fast_host objs :
     po_type o = PmHost ->
     snd (pm_filter_targets true u perm [po_type o] (pm_q_by_type (po_type o) (Some (PmFName PmScHost (po_name o))) []) inv) = PmOk objs ->
-    (In o objs <-> pm_eval_opt pf None o = PmT).
+    (In o objs <-> pm_eval_opt pf o = PmT).
   Proof.
     intros Ht. rewrite pm_filter_targets_type_only. unfold pm_by_filter. cbn [andb negb pm_shadowed existsb].
     assert (pm_targets (po_type o) (PmFName PmScHost (po_name o)) [] = Some [po_name o]) as -> by (rewrite Ht; reflexivity).
-    destruct (pm_fast_collect pf None inv (po_type o) [po_name o]) as [e|l] eqn:F; [discriminate|].
+    destruct (pm_fast_collect pf [] inv (po_type o) [po_name o]) as [e|l] eqn:F; [discriminate|].
     intros H. inversion H; subst. split.
-    - intros Ho. destruct (pm_fast_collect_ret _ _ _ _ _ _ F o Ho) as (_ & _ & A). assumption.
-    - intros A. eapply pm_fast_collect_complete; [exact F|left; reflexivity|assumption].
+    - intros Ho. destruct (pm_fast_collect_ret _ _ _ _ _ _ (pm_ns_typed_nil _) F o Ho) as (_ & _ & A). assumption.
+    - intros A. eapply pm_fast_collect_complete; [apply pm_ns_typed_nil|exact F|left; reflexivity|assumption].
   Qed.
 
   (* the fast path for services: host.name == "<host>" && service.name == "<short name>" (either order);
@@ -564,15 +627,15 @@ Section Paths.
     let f := if swap then PmFAnd (PmFName PmScService (po_short o)) (PmFName PmScHost (po_host o))
              else PmFAnd (PmFName PmScHost (po_host o)) (PmFName PmScService (po_short o)) in
     snd (pm_filter_targets true u perm [po_type o] (pm_q_by_type (po_type o) (Some f) []) inv) = PmOk objs ->
-    (In o objs <-> pm_eval_opt pf None o = PmT).
+    (In o objs <-> pm_eval_opt pf o = PmT).
   Proof.
     intros Ht Hname f. rewrite pm_filter_targets_type_only. unfold pm_by_filter. cbn [andb negb pm_shadowed existsb].
     assert (pm_targets (po_type o) f [] = Some [po_name o]) as ->.
     { rewrite Ht, Hname. unfold f. destruct swap; reflexivity. }
-    destruct (pm_fast_collect pf None inv (po_type o) [po_name o]) as [e|l] eqn:F; [discriminate|].
+    destruct (pm_fast_collect pf [] inv (po_type o) [po_name o]) as [e|l] eqn:F; [discriminate|].
     intros H. inversion H; subst. split.
-    - intros Ho. destruct (pm_fast_collect_ret _ _ _ _ _ _ F o Ho) as (_ & _ & A). assumption.
-    - intros A. eapply pm_fast_collect_complete; [exact F|left; reflexivity|assumption].
+    - intros Ho. destruct (pm_fast_collect_ret _ _ _ _ _ _ (pm_ns_typed_nil _) F o Ho) as (_ & _ & A). assumption.
+    - intros A. eapply pm_fast_collect_complete; [apply pm_ns_typed_nil|exact F|left; reflexivity|assumption].
   Qed.
 End Paths.
 
@@ -582,10 +645,10 @@ Theorem pm_join_only_permitted u o :
 Proof.
   unfold pm_join_visible. destruct (pm_has_permission u (pm_query_perm (po_type o))) as [granted pf] eqn:E.
   intros H. apply andb_prop in H. destruct H as [-> Ht].
-  apply (pm_granted_allow u (pm_query_perm (po_type o)) pf None o).
+  apply (pm_granted_allow u (pm_query_perm (po_type o)) pf o).
   - destruct (po_type o); discriminate.
   - unfold pm_check_permission. rewrite E. reflexivity.
-  - destruct (pm_eval_opt pf None o); [reflexivity|discriminate|discriminate].
+  - destruct (pm_eval_opt pf o); [reflexivity|discriminate|discriminate].
 Qed.
 
 (* ================================================================ packaged statements for Properties_C18.v *)
@@ -597,26 +660,26 @@ Proof.
   intros Hne H o Ho.
   destruct (pm_only_permitted_clean _ _ _ _ _ _ _ _ H) as (pf & Hc & Hall).
   destruct (Hall o Ho) as [Hin Hev]. split; [assumption|].
-  exact (pm_granted_allow u perm pf None o Hne Hc Hev).
+  exact (pm_granted_allow u perm pf o Hne Hc Hev).
 Qed.
 
 Theorem pm_paths_agree u perm inv o pf :
   pm_check_permission u perm = Some pf -> pm_lookup inv (po_type o) (po_name o) = Some o ->
   (forall fast, snd (pm_filter_targets fast u perm [po_type o] (pm_q_by_name (po_type o) (po_name o)) inv) = PmOk [o]
-                <-> pm_eval_opt pf None o = PmT) /\
+                <-> pm_eval_opt pf o = PmT) /\
   (forall fast, snd (pm_filter_targets fast u perm [po_type o] (pm_q_by_list (po_type o) (po_name o)) inv) = PmOk [o]
-                <-> pm_eval_opt pf None o = PmT) /\
+                <-> pm_eval_opt pf o = PmT) /\
   (forall uf fv objs, snd (pm_filter_targets false u perm [po_type o] (pm_q_by_type (po_type o) uf fv) inv) = PmOk objs ->
-                (In o objs <-> pm_eval_opt pf None o = PmT /\ match uf with None => True | Some f => pm_eval fv None f o = PmT end)) /\
+                (In o objs <-> pm_eval_opt pf o = PmT /\ pm_ueval fv uf o = PmT)) /\
   (forall objs, po_type o = PmHost ->
                 snd (pm_filter_targets true u perm [po_type o] (pm_q_by_type (po_type o) (Some (PmFName PmScHost (po_name o))) []) inv) = PmOk objs ->
-                (In o objs <-> pm_eval_opt pf None o = PmT)) /\
+                (In o objs <-> pm_eval_opt pf o = PmT)) /\
   (forall objs (swap : bool), po_type o = PmService -> po_name o = po_host o ++ [33] ++ po_short o ->
                 snd (pm_filter_targets true u perm [po_type o]
                        (pm_q_by_type (po_type o)
                           (Some (if swap then PmFAnd (PmFName PmScService (po_short o)) (PmFName PmScHost (po_host o))
                                  else PmFAnd (PmFName PmScHost (po_host o)) (PmFName PmScService (po_short o)))) []) inv) = PmOk objs ->
-                (In o objs <-> pm_eval_opt pf None o = PmT)).
+                (In o objs <-> pm_eval_opt pf o = PmT)).
 Proof.
   intros Hc Hl.
   split; [intros fast; apply pm_path_by_name; assumption|].
